@@ -114,6 +114,14 @@ def readElemsWith (rv : Lbl → Supply → RS → Res (Value × Supply)) :
     (rv sup.next.1 sup.next.2 s).bind fun r s =>
       (readElemsWith rv n r.2 s).bind fun r2 s => .ok ((sup.next.1, r.1) :: r2.1, r2.2) s
 
+/-- An exception while the variable already has kind ConstArray but its holder pointer is still whatever the
+    union held: the caller's `~ScriptVariable` follows that pointer (`ClearInternal`).  Undefined behaviour
+    unless the kind is assigned only after the payload (`cfg.valueTypeLate`). -/
+def guardKind {α : Type} (cfg : Cfg) (r : Res α) : Res α :=
+  match r with
+  | .ok a s => .ok a s
+  | .err e s => if cfg.valueTypeLate then .err e s else .err .uninit s
+
 /-- `v.ArchiveInternal(arc)` in read mode (fuel bounds the nesting depth) -/
 def readValue (cfg : Cfg) : Nat → Lbl → Supply → RS → Res (Value × Supply)
   | 0, _, _, s => .err .uninit s          -- not reached when fuel ≥ stream length (see Driver)
@@ -134,8 +142,8 @@ def readValue (cfg : Cfg) : Nat → Lbl → Supply → RS → Res (Value × Supp
       | 6 => (readPtr cfg true s).bind fun i s => .ok (.listener i, sup) s
       | 9 =>
         -- `bool newRef;` uninitialised
-        (readData cfg (Prim.bool).tag 1 none s).bind fun nb s =>
-          if unle nb = 0 then (readPtr cfg false s).bind fun i s => .ok (.constArrayRef i, sup) s
+        (guardKind cfg (readData cfg (Prim.bool).tag 1 none s)).bind fun nb s =>
+          if unle nb = 0 then (guardKind cfg (readPtr cfg false s)).bind fun i s => .ok (.constArrayRef i, sup) s
           else
             (readData cfg (Prim.pos).tag 4 (some (zeros 4)) s).bind fun pb s =>
             (addAt cfg (unle pb) sup.next.1 s).bind fun _ s =>
